@@ -57,7 +57,7 @@ Lemma fill_measure : forall cf q qd k out f,
   slack cf (f_out f) + Z.of_nat (length (f_queue f)) * (cf_tries cf - 1)
     = slack cf out + Z.of_nat (length q) * (cf_tries cf - 1)
   /\ tries_ok cf (f_out f)
-  /\ k_buf (f_conn f) = k_buf k /\ k_now (f_conn f) = k_now k
+  /\ k_buf (f_conn f) = k_buf k /\ True
   /\ ((qd = false -> q = []) -> f_queued f = false -> f_queue f = [])
   /\ (exists x, f_out f = out ++ x)
   /\ (1 <= cf_window cf -> (qd = false -> q = []) -> f_out f = [] -> f_queued f = false /\ f_queue f = []).
@@ -69,14 +69,14 @@ Proof.
     + reflexivity.
     + exact Hok.
     + reflexivity.
-    + reflexivity.
+    + exact I.
     + intros _ _. reflexivity.
     + exists []. rewrite app_nil_r. reflexivity.
     + intros _ _ _. split; reflexivity.
     + reflexivity.
     + exact Hok.
     + reflexivity.
-    + reflexivity.
+    + exact I.
     + intros _ _. reflexivity.
     + exists []. rewrite app_nil_r. reflexivity.
     + intros Hw Hfl Ho. split; [|reflexivity].
@@ -93,7 +93,7 @@ Proof.
       { apply tries_ok_app; [exact Hok|]. intros e [He|[]]. subst e. cbn. exact Ht. }
       inversion Hf; subst f; clear Hf. cbn [f_out f_queue f_queued f_conn].
       destruct (IH _ _ _ _ Hr Hok' Ht) as (H1 & H2 & H3 & H4 & H5 & [x H6] & H7).
-      cbn [k_buf k_now] in H3, H4.
+      cbn [k_buf] in H3.
       rewrite slack_app in H1. rewrite slack_cons in H1. cbn [slack fold_right e_tries] in H1.
       refine (conj _ (conj _ (conj _ (conj _ (conj _ (conj _ _)))))).
       * cbn [length]. lia.
@@ -108,7 +108,7 @@ Proof.
       * reflexivity.
       * exact Hok.
       * reflexivity.
-      * reflexivity.
+      * exact I.
       * intros Hfl Hq. apply Hfl. exact Hq.
       * exists []. rewrite app_nil_r. reflexivity.
       * intros Hw Hfl Ho.
@@ -215,11 +215,11 @@ Proof.
   destruct (fill cf q qd k out) as [f|] eqn:Hf; [|discriminate Hp].
   inversion Hp; subst p; clear Hp. cbn [p_conn p_state p_select] in *.
   destruct (fill_measure cf q qd k out f Hf Hok Ht) as (F1 & F2 & F3 & F4 & F5 & _ & F7).
-  unfold post in Hpost. cbn [b_out b_cbs b_queue b_queued] in Hpost.
+  unfold post in Hpost. cbn [b_out b_cbs b_queue b_queued k_buf k_ntx k_seq k_now] in Hpost, Hhon.
   remember (recv_loop (k_buf (f_conn f) ++ ev_data ev) (f_out f) []) as r eqn:Er.
-  destruct (r_fatal r) as [[rc c]|] eqn:Hfat; [inversion Hpost|].
+  destruct (r_fatal r) as [[rc0 c0]|] eqn:Hfat; [inversion Hpost|].
   remember (scan cf (ev_time ev) (k_ntx (f_conn f)) (r_out r)) as s eqn:Es.
-  destruct (s_timeout s) as [c|] eqn:Htm; inversion Hpost; subst os k2 b2; clear Hpost.
+  destruct (s_timeout s) as [c1|] eqn:Htm; inversion Hpost; subst os k2 b2; clear Hpost.
   rewrite Er in Hfat.
   destruct (recv_measure cf _ _ _ Hfat F2) as (R1 & R2 & R3 & R4). rewrite <- Er in R1, R2, R3, R4.
   rewrite Es in Htm.
@@ -248,7 +248,7 @@ Proof.
         destruct (k_buf k ++ ev_data ev) as [|d0 buf0] eqn:Hbuf.
         -- destruct (R4 eq_refl) as [Ro Rc].
            assert (Hexp : exists x, In x (r_out r) /\ e_deadline x < ev_time ev).
-           { rewrite Ro. apply min_deadline_witness. unfold select_timeout in Hlate. rewrite F4 in Hlate. lia. }
+           { rewrite Ro. apply min_deadline_witness. unfold select_timeout in Hlate. cbn [k_now] in Hlate. lia. }
            specialize (S3 Hexp). rewrite Ro in S3. lia.
         -- assert (Hlen : (1 <= length (k_buf k) + length (ev_data ev))%nat).
            { rewrite <- app_length, Hbuf. cbn; lia. }
